@@ -428,6 +428,28 @@ def run_erange(prog, ctx=None):
                    "" if ok else "result of %s() reaches a success return (line %s) without any test of errno: out-of-range numerals saturate silently" % (callee_name(e), bad.get("l")),
                    {"call": norm(show(e, f))})
             res.count("strto_calls")
+        # the range error alone decides: from the edge on which errno equals ERANGE no success return is reachable (a second
+        # condition joined to the test - only overflow, only some values - lets part of the unrepresentable numerals through)
+        for bid in sorted(tests):
+            blk = f.blocks[bid]
+            t = blk.term
+            c = strip(t["cond"], all_casts=True)
+            if not (c.get("k") == "bin" and c.get("op") == "==" and len(blk.succ) == 2 and blk.succ[0] is not None):
+                continue
+            if not any(n.get("k") == "call" and callee_name(n) == "__errno_location" for n in walk(c)):
+                continue
+            T = blk.succ[0]
+            bad = None
+            for x in sorted({T} | set(f.reachable_from(T))):
+                for idx, el in enumerate(f.blocks[x].el):
+                    if el.get("k") == "ret" and el.get("e") is not None:
+                        rv = an.value_at(x, idx, el["e"])
+                        if rv is not None and rv.hi > 0:
+                            bad = el
+            ok = bad is None
+            res.ob("%s:errno-test-decides" % f.qn, ok, f, t.get("l", f.line),
+                   "" if ok else "after `%s` held, a success return (line %s) is still reachable: the range error of the C library is not refused on its own" % (
+                       norm(show(c, f))[:40], bad.get("l")))
     return res
 
 
@@ -481,4 +503,40 @@ def run_convboth(prog, ctx=None):
             res.ob("%s:%s" % (f.qn, pids[vid]), ok, f, (quiet or {}).get("l", f.line),
                    "" if ok else "%s: every converter call runs only when `%s` is non-null, but with `%s` null the function reaches `%s` (line %s): the query without destination is answered without converting" % (
                        f.qn, pids[vid], pids[vid], norm(show(quiet, f))[:40], quiet.get("l")))
+    return res
+
+
+UNSIGNED_PARSERS = ("strtoul", "strtoull", "strtoumax", "strtouq")
+
+
+def run_unsignedtext(prog, ctx=None):
+    """UNSIGNEDTEXT: the C library's unsigned parsers (strtoul, strtoull, strtoumax) accept a minus sign and return the negated
+    value in unsigned arithmetic without any error ("-1" gives UINTMAX_MAX).  A function that delivers their result as the
+    number the text denotes looks at the text for a '-' itself: a comparison of a character with '-' or a search for it
+    (strchr/memchr with '-') in the function that makes the call."""
+    res = Result("UNSIGNEDTEXT")
+    n = 0
+    for f in sorted(prog.functions.values(), key=lambda f: (f.file, f.line, f.qn)):
+        if f.nocfg or f.file.startswith("examples/"):
+            continue
+        calls = [e for b, i, e in f.elements() if e.get("k") == "call" and (callee_name(e) or "") in UNSIGNED_PARSERS]
+        if not calls:
+            continue
+        looks = False
+        for b, i, nn in f.walk_all():
+            if nn.get("k") == "bin" and nn.get("op") in ("==", "!=") and (cval(nn["a"]) == 45 or cval(nn["b"]) == 45):
+                looks = True
+            if nn.get("k") == "call" and (callee_name(nn) or "") in ("strchr", "memchr", "strrchr", "index") and len(nn.get("args", [])) > 1 and cval(nn["args"][1]) == 45:
+                looks = True
+        for bid, blk in f.blocks.items():
+            lab = blk.label
+            if lab and lab.get("k") == "case" and lab.get("lo") == 45:
+                looks = True
+        for c in calls:
+            n += 1
+            res.ob("%s:%s" % (f.qn, norm(show(c, f))[:50]), looks, f, c.get("l", f.line),
+                   "" if looks else "%s: %s() parses the text as unsigned: it accepts a leading '-' and returns the negated value modulo 2^N without an error, "
+                                    "and nothing in this function looks for a '-': negative text is delivered as a large positive number" % (f.qn, callee_name(c)))
+    if not n:
+        raise Broken("UNSIGNEDTEXT: no call of an unsigned text parser found")
     return res
